@@ -203,6 +203,7 @@ def run_case(case, seed):
         return orig_to_grid(self, grid, order=order)
 
     nchecks = 0
+    pending = None
     TR.TABresult.to_grid = to_grid_spy
     try:
         with G.case_tmpdir() as tmp:
@@ -324,9 +325,13 @@ def run_case(case, seed):
                                     val = call()
                                 except Exception:
                                     continue
-                                return _fail(f"get_component:invalid_accepted:{kind}",
-                                             f"{what}: {q} (rank {r}, stored shape {flatT.shape}) component={spec!r} via "
-                                             f"{via} did not raise but returned an array of shape {np.shape(val)}", keys)
+                                # not fatal for the rest of the case: remembered, reported at the end unless a
+                                # different failure (wrong slot / wrong value ...) shows up first
+                                if pending is None:
+                                    pending = _fail(f"get_component:invalid_accepted:{kind}",
+                                                    f"{what}: {q} (rank {r}, stored shape {flatT.shape}) component="
+                                                    f"{spec!r} via {via} did not raise but returned an array of shape "
+                                                    f"{np.shape(val)}", keys)
                             nchecks += 1
                     # ---- 7. FermiSurfer text is C ordered, band-major
                     qf = "Velocity"
@@ -339,6 +344,8 @@ def run_case(case, seed):
                         return _fail("fermiSurfer:order", f"{what}: header {g} {nbf}", keys)
     finally:
         TR.TABresult.to_grid = orig_to_grid
+    if pending is not None:
+        return pending
     return {"ok": True, "nontrivial": keys,
             "obs": {"runs": len(facts) * len(libs), "checks": nchecks, "nk": nk, "quantities": len(names)}}
 
